@@ -559,6 +559,10 @@ func (s *Server) validateConnect(cl *Client, pk packets.Packet) packets.Code {
 		return packets.ErrRetainNotSupported // [MQTT-3.2.2-13]
 	}
 
+	if pk.Connect.WillFlag && !IsValidFilter(pk.Connect.WillTopic, true) {
+		return packets.ErrTopicNameInvalid // the will topic must be a topic name a client may publish to (no wildcards, not $SYS)
+	}
+
 	return code
 }
 
@@ -1550,6 +1554,10 @@ func (s *Server) sendLWT(cl *Client) {
 	}
 
 	modifiedLWT := s.hooks.OnWill(cl, cl.Properties.Will)
+	if !IsValidFilter(modifiedLWT.TopicName, true) || !s.hooks.OnACLCheck(cl, modifiedLWT.TopicName, true) {
+		atomic.StoreUint32(&cl.Properties.Will.Flag, 0) // a will is a publish by the client: it needs a valid topic name and write permission
+		return
+	}
 
 	pk := packets.Packet{
 		FixedHeader: packets.FixedHeader{
